@@ -64,6 +64,26 @@ TECHNIQUE = "Coq model of the weak-reference registries + invariant over all his
 KINDS = ["group", "object", "data", "pg", "type"]
 KCOQ = {"group": "KGroup", "object": "KObject", "data": "KData", "pg": "KPG", "type": "KType"}
 REG_ATTR = {"group": "_groups", "object": "_objects", "data": "_data", "pg": "_property_groups", "type": "_types"}
+# the spellings of an identifier the public API accepts (uid: str | uuid.UUID)
+SPELLINGS = ["UUID object", "str", "str in braces", "upper-case str", "hex str without hyphens"]
+
+
+def spell(uid, sp):
+    return [uid, str(uid), "{" + str(uid) + "}", str(uid).upper(), uid.hex][sp]
+
+
+def _norm(u):
+    """The identifier a stored value denotes (uuid.UUID), or the value itself when it cannot be read as one."""
+    import uuid
+
+    if isinstance(u, uuid.UUID) or u is None:
+        return u
+    try:
+        return uuid.UUID(u.decode() if isinstance(u, bytes) else str(u))
+    except ValueError:
+        return u
+
+
 LISTING = {"group": "groups", "object": "objects", "data": "data", "type": "types"}
 
 
@@ -150,6 +170,17 @@ def scripted():
     out.append({"ops": two + [{"op": "pg", "o": 5, "ds": [7], "u": {"same": 9}}, {"op": "pg", "o": 5, "ds": [7], "u": None},
                               {"op": "copy", "e": 5, "t": 3}]})
     out.append({"ops": two + [{"op": "copy", "e": 6, "t": 3}, {"op": "pg", "o": 5, "ds": [7], "u": {"same": 9}}]})
+    # the public API takes identifiers as uuid.UUID or str: every accepted spelling of an identifier denotes the same identifier,
+    # on every creation route that takes one (group, object, data, property group)
+    for sp in range(1, len(SPELLINGS)):
+        u = {"same": 9, "sp": sp}
+        out.append({"ops": two + [{"op": "pg", "o": 5, "ds": [7], "u": u}, {"op": "lookup", "ws": 0, "e": 9},
+                                  {"op": "data", "o": 5, "u": {"same": 8, "sp": sp}},
+                                  {"op": "create", "ws": 0, "obj": True, "parent": 1, "u": {"same": 6, "sp": sp}},
+                                  {"op": "create", "ws": 0, "obj": False, "parent": 1, "u": {"same": 1, "sp": sp}},
+                                  {"op": "pg", "o": 5, "ds": [7], "u": {"fresh": True, "sp": sp}},
+                                  {"op": "data", "o": 5, "u": {"fresh": True, "sp": sp}},
+                                  {"op": "create", "ws": 1, "obj": True, "parent": 3, "u": {"same": 9, "sp": sp}}]})
     return out
 
 
@@ -159,6 +190,7 @@ def dtype_cases(rng, count):
     either workspace as entity_type (DataType.validate_data_type -> EntityType.copy), and object copies (find_or_create)."""
     cases = [{"dtype": {"objs": [0, 1], "steps": [{"t": "data", "o": 0}, {"t": "typed", "o": 1, "d": 0}, {"t": "typed", "o": 1, "d": 0},
                                                    {"t": "copy", "o": 0, "ws": 1}]}},
+             {"dtype": {"objs": [0, 1], "steps": [{"t": "data", "o": 0}] + [{"t": "byuid", "o": o, "d": 0, "sp": sp} for sp in range(5) for o in (1, 0)]}},
              {"dtype": {"objs": [0, 0], "steps": [{"t": "data", "o": 0}, {"t": "typed", "o": 1, "d": 0}, {"t": "copy", "o": 0, "ws": 0}]}}]
     for _ in range(count):
         objs = [rng.below(2) for _ in range(rng.range(2, 3))]
@@ -168,8 +200,11 @@ def dtype_cases(rng, count):
             if ndata == 0 or r < 35:
                 steps.append({"t": "data", "o": rng.below(len(objs))})
                 ndata += 1
-            elif r < 80:
+            elif r < 65:
                 steps.append({"t": "typed", "o": rng.below(len(objs)), "d": rng.below(ndata)})
+                ndata += 1
+            elif r < 80:  # the type named by its identifier, in any accepted spelling (DataType.find_or_create)
+                steps.append({"t": "byuid", "o": rng.below(len(objs)), "d": rng.below(ndata), "sp": rng.below(len(SPELLINGS))})
                 ndata += 1
             else:
                 steps.append({"t": "copy", "o": rng.below(len(objs)), "ws": rng.below(2)})
@@ -215,7 +250,9 @@ def random_history(rng):
                 cands = same
             if cands:
                 src = pick(cands)
-                return {"same": src}, uid_owner[src]
+                return {"same": src, "sp": rng.below(len(SPELLINGS))}, uid_owner[src]
+        if rng.chance(20):  # a caller-supplied identifier nobody uses, in any accepted spelling: behaves like a generated one
+            return {"fresh": True, "sp": rng.below(len(SPELLINGS))}, None
         return None, None
 
     length = rng.range(8, 22)
@@ -342,7 +379,15 @@ class _Rec:
         self.kind = []
         self.ws = []
         self.orig = {}
+        self.spelling = []  # identifiers found in another form than uuid.UUID (memory) / "{lower-case}" (file)
         self.ordmap = weakref.WeakKeyDictionary()  # instance -> ordinal (nothing is written on the instances)
+
+    def setuid(self, k, raw):
+        import uuid
+
+        self.uid[k] = _norm(raw)
+        if raw is not None and not isinstance(raw, uuid.UUID):
+            self.spelling.append(f"instance {k} ({self.kind[k]}) carries its identifier as {type(raw).__name__} {raw!r}")
 
     def ordof(self, obj):
         try:
@@ -383,14 +428,14 @@ class _Rec:
             try:
                 e_init(self, *a, **kw)
             finally:
-                rec.uid[k] = getattr(self, "_uid", None)
+                rec.setuid(k, getattr(self, "_uid", None))
 
         def pg_init(self, parent, *a, **kw):
             k = rec.add(self, "pg", ws_index(parent.workspace))
             try:
                 p_init(self, parent, *a, **kw)
             finally:
-                rec.uid[k] = getattr(self, "_uid", None)
+                rec.setuid(k, getattr(self, "_uid", None))
 
         def type_init(self, workspace, *a, **kw):
             if isinstance(self, DataType):
@@ -399,7 +444,7 @@ class _Rec:
             try:
                 t_init(self, workspace, *a, **kw)
             finally:
-                rec.uid[k] = getattr(self, "_uid", None)
+                rec.setuid(k, getattr(self, "_uid", None))
 
         Entity.__init__, PropertyGroup.__init__, EntityType.__init__ = entity_init, pg_init, type_init
 
@@ -436,7 +481,10 @@ def _observe(rec, wss, out):
         for kind in KINDS:
             d = getattr(ws, REG_ATTR[kind])
             rows = []
-            for uid, ref in d.items():
+            for raw, ref in d.items():
+                uid = _norm(raw)
+                if uid is not raw:
+                    rec.spelling.append(f"registry {REG_ATTR[kind]} of workspace {wss.index(ws)} has the key {raw!r} ({type(raw).__name__})")
                 x = ref()
                 if kind == "type" and (isinstance(x, DataType) or (x is None and uid not in rep)):
                     del x
@@ -449,6 +497,39 @@ def _observe(rec, wss, out):
     for ws in wss:
         ser += _links(ws.geoh5, rep)
     return ser
+
+
+def _file_spellings(h5):
+    """Node names of the file that are not the canonical "{lower-case uuid}" form."""
+    import uuid
+
+    import h5py
+
+    base = h5[list(h5)[0]]
+    bad = []
+
+    def check(where, key):
+        try:
+            ok = key == "{" + str(uuid.UUID(key)) + "}"
+        except ValueError:
+            ok = False
+        if not ok:
+            bad.append(f"{where} has the key {key!r}")
+
+    for cont in ("Groups", "Objects", "Data"):
+        if cont not in base:
+            continue
+        for u, node in base[cont].items():
+            check(cont, u)
+            for sub in ("Groups", "Objects", "Data", "PropertyGroups"):
+                if sub in node and isinstance(node[sub], h5py.Group):
+                    for cu in node[sub].keys():
+                        check(f"{cont}/{u}/{sub}", cu)
+    if "Types" in base:
+        for fam in base["Types"].keys():
+            for u in base["Types"][fam].keys():
+                check(f"Types/{fam}", u)
+    return bad
 
 
 def _links(h5, rep):
@@ -517,8 +598,18 @@ def _drive_dtype(spec, work):
         objs = [Points.create(wss[w], vertices=np.zeros((2, 3)), name=f"o{k}") for k, w in enumerate(spec["objs"])]
         datas = []  # (data, workspace index)
 
+        raw = []
+
         def live_types(i):
-            return sorted(str(t.uid) for t in wss[i].types if type(t).__name__ == "DataType")
+            import uuid
+
+            for key, ref in list(wss[i]._types.items()):
+                t = ref()
+                for v in (key, getattr(t, "_uid", key)):
+                    if not isinstance(v, uuid.UUID):
+                        raw.append(f"workspace {i}: type identifier kept as {type(v).__name__} {v!r}")
+                del t
+            return sorted(str(_norm(t.uid)) for t in wss[i].types if type(t).__name__ == "DataType")
 
         def widx(w):
             return 0 if w is wss[0] else 1
@@ -538,6 +629,17 @@ def _drive_dtype(spec, work):
                     rec.update({"src": [widx(src.entity_type.workspace), str(src.entity_type.uid)],
                                 "same_instance": d.entity_type is src.entity_type,
                                 "new": [[widx(d.workspace), str(d.entity_type.uid), widx(d.entity_type.workspace)]]})
+                elif st["t"] == "byuid":
+                    src = datas[st["d"]]
+                    suid, sws = src.entity_type.uid, widx(src.entity_type.workspace)
+                    tgt = objs[st["o"]]
+                    holder = [t for t in tgt.workspace.types if type(t).__name__ == "DataType" and _norm(t.uid) == suid]
+                    d = tgt.add_data({f"d{len(datas)}": {"values": np.array([0.0, 1.0]),
+                                                         "entity_type": {"primitive_type": "FLOAT", "uid": spell(suid, st["sp"])}}})
+                    datas.append(d)
+                    rec.update({"src": [sws, str(suid)], "same_instance": bool(holder) and d.entity_type is holder[0],
+                                "new": [[widx(d.workspace), str(_norm(d.entity_type.uid)), widx(d.entity_type.workspace)]]})
+                    del holder
                 else:
                     o = objs[st["o"]]
                     cp = o.copy(parent=wss[st["ws"]])
@@ -564,6 +666,7 @@ def _drive_dtype(spec, work):
             w2.close()
         res["mem"] = mem
         res["file"] = on_file
+        res["spelling"] = sorted(set(raw))[:10]
     finally:
         for w in wss:
             try:
@@ -607,6 +710,15 @@ def _oracle_dtype(spec, obs):
                     add("type-identifier-dropped-although-free", f"step {i} {st}: type identifier {suid[:8]} was free in workspace {dws} but the new type got {tuid_[:8]}")
                 if not free and tuid_ == suid and r["after"][dws].count(suid) > 1:
                     add("types-share-identifier", f"step {i}: identifier in use was reused")
+        if st["t"] == "byuid":
+            _sws, suid = r["src"]
+            (dws, tuid_, tws), = r["new"]
+            if tws != dws:
+                add("type-in-wrong-workspace", f"step {i}: the new data's type belongs to workspace {tws}, the data to {dws}")
+            if tuid_ != suid:
+                add("type-named-by-identifier-got-another", f"step {i} {st}: asked for type {suid[:8]} ({SPELLINGS[st['sp']]}), got {tuid_[:8]}")
+            if suid in r["before"][dws] and not r["same_instance"]:
+                add("type-named-by-identifier-not-found", f"step {i} {st}: a live type of workspace {dws} has this identifier; another instance was made")
         if st["t"] == "copy":
             for aws, auid, bws, buid, tws in r["pairs"]:
                 if tws != bws:
@@ -614,6 +726,8 @@ def _oracle_dtype(spec, obs):
                 free = auid not in r["before"][bws]
                 if aws != bws and free and buid != auid:
                     add("type-identifier-dropped-although-free", f"step {i} {st}: object copy did not keep the data type identifier {auid[:8]}")
+    if obs.get("spelling"):
+        add("identifier-not-normalised", "; ".join(obs["spelling"][:3]))
     mem = {(m[0], m[1]): m[2] for m in obs.get("mem", [])}
     for ws, uid, t in obs.get("file", []):
         if t != mem.get((ws, uid)):
@@ -668,6 +782,12 @@ def drive_one(case, work):
         if not cond:
             raise LookupError("operation not applicable (the model answers BadOp)")
 
+    def given(u):
+        import uuid
+
+        base = uuid.uuid4() if u.get("fresh") else rec.uid[u["same"]]
+        return spell(base, u.get("sp", 0))
+
     def apply(op):
         t = op["op"]
         if t == "create":
@@ -700,7 +820,7 @@ def drive_one(case, work):
         if t == "create":
             kw = {"parent": inst(op["parent"]), "name": f"n{len(rec.refs)}"}
             if op["u"]:
-                kw["uid"] = rec.uid[op["u"]["same"]]
+                kw["uid"] = given(op["u"])
             if op["obj"]:
                 Points.create(wss[op["ws"]], vertices=np.zeros((2, 3)), **kw)
             else:
@@ -708,13 +828,13 @@ def drive_one(case, work):
         elif t == "data":
             spec = {"values": np.array([0.0, 1.0])}
             if op["u"]:
-                spec["uid"] = rec.uid[op["u"]["same"]]
+                spec["uid"] = given(op["u"])
             inst(op["o"]).add_data({f"n{len(rec.refs)}": spec})
         elif t == "pg":
             o = inst(op["o"])
             kw = {"name": f"n{len(rec.refs)}"}
             if op["u"]:
-                kw["uid"] = rec.uid[op["u"]["same"]]
+                kw["uid"] = given(op["u"])
             pg = o.create_property_group(**kw)
             pg.add_properties([tab[d] for d in op["ds"] if d in tab])  # add_properties keeps the data children only
         elif t == "copy":
@@ -767,6 +887,9 @@ def drive_one(case, work):
             rep.setdefault(rec.uid[k], k)
             res["uid_rep"].append(rep[rec.uid[k]])
         res["kinds"] = list(rec.kind)
+        for i, ws in enumerate(wss):
+            rec.spelling += [f"file of workspace {i}: {x}" for x in _file_spellings(ws.geoh5)]
+        res["spelling"] = sorted(set(rec.spelling))[:20]
         res["wsof"] = list(rec.ws)
         for ws in wss:
             ws.close()
@@ -819,7 +942,9 @@ def digest(seq):
 
 
 def _u(u):
-    return "UFresh" if not u else f"(USame {u['same']})"
+    # the model's key is the identifier itself: the spelling the caller used does not exist there, and an identifier nobody
+    # uses behaves like a generated one
+    return "UFresh" if not u or u.get("fresh") else f"(USame {u['same']})"
 
 
 def _op_term(op):
@@ -1022,6 +1147,9 @@ def oracle(case, obs):
                 if len(ts) > 1:
                     add("several-types-for-one-class", f"op {i}: live {cls}s of workspace {ws} have types {sorted(ts)}")
         prev = o
+    if obs.get("spelling"):
+        add("identifier-not-normalised", "an identifier supplied in one of the accepted spellings is kept as given instead of as the "
+            "identifier it denotes: " + "; ".join(obs["spelling"][:4]))
     for k, (status, _) in enumerate(obs.get("reopen", [])):
         if status != "ok":
             collided = seen & {"cross-kind-identifier-shared", "refused-creation-left-in-parent"}
